@@ -18,6 +18,7 @@ import (
 	"os/exec"
 	"path/filepath"
 	"strings"
+	"sync"
 	"time"
 
 	"github.com/goose-lang/goose"
@@ -27,7 +28,7 @@ import (
 	"verif/mcx"
 )
 
-var pkgNames = []string{"a", "b", "c", "d", "e"}
+var pkgNames = []string{"a", "b", "c", "d", "e", "f", "g", "h"}
 
 const modPath = "example.com/c06"
 
@@ -117,12 +118,26 @@ func partSchedules(dir string, tier string, acc *ev.Acc, start time.Time, only [
 	shard, nshards := ev.Shard()
 	scenario := 0
 	for _, set := range sets {
-		if len(set) < 2 {
-			continue
+		if len(set) >= 3 && tier == "quick" && only == nil {
+			// quick: triples among the first five packages and those around the f/g pair
+			hasFG, late := 0, 0
+			for _, n := range set {
+				if n == "f" || n == "g" {
+					hasFG++
+				}
+				if n > "e" {
+					late++
+				}
+			}
+			if !(late == 0 || (hasFG == 2 && late == 2)) {
+				continue
+			}
 		}
 		// pairs are explored with the larger preemption bound, bigger groups with a smaller one
 		bound := 0
 		switch {
+		case len(set) == 1:
+			bound = 2 // a single package: only the order of map iterations can deviate
 		case tier == "quick" && len(set) == 2:
 			bound = 2
 		case tier == "quick" && len(set) == 3:
@@ -139,8 +154,11 @@ func partSchedules(dir string, tier string, acc *ev.Acc, start time.Time, only [
 		if only != nil {
 			bound = 3
 		}
-		for _, order := range [][]string{set, reversed(set)} {
+		for oi, order := range [][]string{set, reversed(set)} {
 			order := order
+			if oi == 1 && len(set) == 1 {
+				continue
+			}
 			scenario++
 			if scenario%nshards != shard {
 				continue
@@ -242,15 +260,49 @@ func partBinary(goose, dir, work, tier string, acc *ev.Acc) {
 	if tier == "thorough" {
 		reps = 5
 	}
+	type job struct {
+		id    int
+		order []string
+		rep   int
+	}
+	var jobs []job
 	id := 0
-	for _, set := range subsets(pkgNames, 5) {
+	sets := subsets(pkgNames, len(pkgNames))
+	for _, set := range sets {
+		if len(set) > 2 && len(set) < len(pkgNames) {
+			fg, late := 0, 0
+			for _, n := range set {
+				if n == "f" || n == "g" {
+					fg++
+				}
+				if n > "e" {
+					late++
+				}
+			}
+			// beyond pairs: every subset of the first five packages, triples around the f/g pair, and everything at once
+			if !(late == 0 || (len(set) == 3 && fg == 2)) {
+				continue
+			}
+		}
 		for oi, order := range [][]string{set, reversed(set)} {
 			if oi == 1 && len(set) == 1 {
 				continue
 			}
 			for rep := 0; rep < reps; rep++ {
 				id++
-				out := filepath.Join(work, fmt.Sprintf("joint%d", id))
+				jobs = append(jobs, job{id, order, rep})
+			}
+		}
+	}
+	var wg sync.WaitGroup
+	ch := make(chan job)
+	for w := 0; w < 16; w++ {
+		wg.Add(1)
+		go func() {
+			defer wg.Done()
+			for j := range ch {
+				order, rep := j.order, j.rep
+				out := filepath.Join(work, fmt.Sprintf("joint%d", j.id))
 				code, stderr := runBin(goose, dir, out, nil, pats(order))
 				got := tree(out)
 				os.RemoveAll(out)
@@ -296,8 +348,13 @@ func partBinary(goose, dir, work, tier string, acc *ev.Acc) {
 					viol("error-list", fmt.Sprintf("stderr differs from the concatenation of the solo error lists in pattern order:\n--- joint ---\n%s\n--- expected ---\n%s", stderrKey(stderr, dir), wantErr))
 				}
 			}
-		}
+		}()
 	}
+	for _, j := range jobs {
+		ch <- j
+	}
+	close(ch)
+	wg.Wait()
 }
 
 func partRace(raceBin, dir, work string, acc *ev.Acc) {
@@ -383,7 +440,7 @@ func main() {
 	os.RemoveAll(work)
 	os.Exit(acc.Done(ev.Finish{
 		Prop: "C06", Tier: *tier, Level: "model_checking", Start: start,
-		Rule:        "fixture of 5 packages (plain; two files on the disk FFI; conversion errors among good declarations; importing another package and re-using its identifiers with other shapes; sync + an error). (B) the real TranslatePackages under the controlled scheduler (interface.go instrumented by overlay: workers are controlled threads, WaitGroup/channels are scheduler objects, preemption points at function entries and loop heads, i.e. between declarations; packages.Load memoised): every pair of packages with <=2 preemptions and every triple with <=1 (thorough: pairs 3, triples 2, quadruples 1), in both pattern orders; oracle: every returned (package, file bytes, error text) equals the solo translation and the returned sequence is the same in every schedule. (A) the real binary, free-running: every non-empty subset in both orders, repeated: exit status, files and stderr equal those composed from solo runs. (C) a -race build of cmd/goose translating all packages with GOMAXPROCS 1, 2, 16",
+		Rule:        "fixture of 8 packages (plain; two files on the disk FFI; conversion errors among good declarations; importing another package and re-using its identifiers with other shapes; sync + an error; a package exporting a struct / method / constant / interface and a package using them; a declaration with seven independent forward references). (B) the real TranslatePackages under the controlled scheduler (interface.go instrumented by overlay: workers are controlled threads, WaitGroup/channels are scheduler objects, preemption points at function entries and loop heads, i.e. between declarations; every range over a map in the translator and printer iterates in an order chosen by the explorer; packages.Load memoised): every pair of packages with <=2 preemptions and every triple with <=1 (thorough: pairs 3, triples 2, quadruples 1), in both pattern orders; oracle: every returned (package, file bytes, error text) equals the solo translation and the returned sequence is the same in every schedule. (A) the real binary, free-running: every singleton and pair, every subset of the first five, the triples around the exporting/importing pair and all eight at once, in both orders, repeated: exit status, files and stderr equal those composed from solo runs. (C) a -race build of cmd/goose translating all packages with GOMAXPROCS 1, 2, 16",
 		Assumptions: []string{"interleavings inside the translation of one declaration (goose.go has no preemption points) are covered only by the free-running -race pass", "the loaded packages are treated as read-only and shared between explored executions"},
 		Extra:       mcx.Extra(acc, map[string]any{}),
 	}))
